@@ -13,9 +13,25 @@ Property C13, DESIGN.md Appendix B.5.  Core Lean only.  Sequential model: one op
   `ErrClosedPipe` / deadline → timeout; else blocks.
 * `WriteTo`, `SetReadDeadline`, `SetWriteDeadline` (108-139): own context cancelled →
   `io.ErrClosedPipe`; else forwarded / stored.
+* Deadlines.  `SetReadDeadline` is stored IN THE HANDLE (`readDeadline`, armed per read by
+  `readContext`): per handle.  `SetWriteDeadline` is FORWARDED to `underlying.SetWriteDeadline`: there is
+  no per-handle write deadline.  `SetDeadline` = `SetReadDeadline` then `SetWriteDeadline`.  What the
+  forwarded call does depends on the underlying connection (`State.fwd`): `udpMuxedConn.SetWriteDeadline`
+  returns nil and does nothing (`fwd = false`); `tcpPacketConn.SetWriteDeadline` sets the deadline of
+  EVERY `net.Conn` of the ufrag, and `tcpPacketConn.WriteTo` then fails with the deadline error for every
+  handle (`fwd = true`, register `wdlPast`; the harness's fake does the same).  The register is shared BY
+  DESIGN between the live handles of one connection.  Since fix F33 (db0c63f) the wrapper remembers
+  (`writeDeadlineArmed`, `Handle.wdArmed`) that IT forwarded a non-zero write deadline, and `Close` of such a
+  wrapper while siblings remain (`refs` still > 0) calls `underlying.SetWriteDeadline(time.Time{})` (its
+  error is `Close`'s result; the underlying connections of the harness never fail it): a deadline does not
+  outlive the handle that armed it.
+* `abort h` = what `candidateBase.abortIO` does with the candidate's handle:
+  `SetDeadline(time.Now())`; `abortWrite()` if the handle is a `writeAborter` (UDP: the mux protocol of
+  `IceModel.WriteAbort`, no effect on this model; TCP: `tcpPacketConn` is no `writeAborter`); `Close()`.
 
-The underlying connection is abstract: a queue length, a count of `Close` calls, and — once closed —
-writes and reads fail (`udpMuxedConn`, `tcpPacketConn` and the harness's fake all do).
+The underlying connection is abstract: a queue length, a count of `Close` calls, the write-deadline
+register, and — once closed — writes and reads fail (`udpMuxedConn`, `tcpPacketConn` and the harness's
+fake all do).
 -/
 namespace IceModel.SharedConn
 
@@ -26,6 +42,8 @@ structure Handle where
   pending : Nat
   /-- a read deadline in the past is stored (`false`: none / zero) -/
   rdlPast : Bool
+  /-- `writeDeadlineArmed`: this wrapper's last `SetWriteDeadline` forwarded a non-zero time -/
+  wdArmed : Bool := false
   deriving DecidableEq, Repr, Inhabited
 
 structure State where
@@ -37,9 +55,18 @@ structure State where
   uCloses : Nat
   /-- datagrams queued at the underlying connection -/
   queue : Nat
+  /-- kind of the underlying connection: it honours a forwarded `SetWriteDeadline` (`tcpPacketConn`, the
+      harness's fake); `false`: it ignores it (`udpMuxedConn`) -/
+  fwd : Bool := false
+  /-- write-deadline register of the underlying connection: a time in the past -/
+  wdlPast : Bool := false
   deriving DecidableEq, Repr, Inhabited
 
-def State.init : State := { refs := 0, handles := [], uCloses := 0, queue := 0 }
+/-- initial state for an underlying connection of the given kind -/
+def State.initK (fwd : Bool) : State := { refs := 0, handles := [], uCloses := 0, queue := 0, fwd := fwd, wdlPast := false }
+
+/-- the kind whose `SetWriteDeadline` does nothing (`udpMuxedConn`) -/
+def State.init : State := State.initK false
 
 inductive Op where
   | «open»
@@ -47,7 +74,11 @@ inductive Op where
   | read (h : Nat)
   | write (h : Nat)
   | setrd (h : Nat) (past : Bool)
-  | setwd (h : Nat)
+  | setwd (h : Nat) (past : Bool)
+  /-- `SetDeadline` -/
+  | setd (h : Nat) (past : Bool)
+  /-- the `candidateBase.abortIO` sequence on handle `h`: `SetDeadline(now)`, `abortWrite`, `Close` -/
+  | abort (h : Nat)
   /-- the environment delivers one datagram to the underlying connection -/
   | feed
   deriving DecidableEq, Repr, Inhabited
@@ -69,6 +100,8 @@ inductive Out where
   | fed (rel : Option Nat)
   | skip
   | badHandle
+  /-- `abort` of a handle that is already closed: `SetDeadline` fails closed, `Close` is inert -/
+  | abortedClosed (u : Nat)
   deriving DecidableEq, Repr, Inhabited
 
 def Out.toString : Out → String
@@ -83,6 +116,7 @@ def Out.toString : Out → String
   | .fed (some h) => s!"ok rel=h{h}"
   | .skip => "skip"
   | .badHandle => "bad-handle"
+  | .abortedClosed u => s!"err:closed u={u} rel=0"
 
 def nOpen (hs : List Handle) : Nat := hs.countP (fun h => !h.closed)
 def totalPending (hs : List Handle) : Nat := (hs.map (·.pending)).sum
@@ -94,7 +128,7 @@ def firstPending : List Handle → Nat → Option Nat
 
 def step (s : State) : Op → State × Out
   | .open =>
-    ({ s with refs := s.refs + 1, handles := s.handles ++ [{ closed := false, pending := 0, rdlPast := false }] },
+    ({ s with refs := s.refs + 1, handles := s.handles ++ [{ closed := false, pending := 0, rdlPast := false, wdArmed := false }] },
      .handle s.handles.length)
   | .close h =>
     match s.handles[h]? with
@@ -102,11 +136,15 @@ def step (s : State) : Op → State × Out
     | some hd =>
       if hd.closed then (s, .closed s.uCloses 0)                        -- closeOnce already fired
       else
-        let hs := s.handles.set h { hd with closed := true, pending := 0 }   -- s.cancel()
+        -- (the flag of a closed wrapper is never read again; it is reset here in every branch)
+        let hs := s.handles.set h { hd with closed := true, pending := 0, wdArmed := false }   -- s.cancel()
         let refs := s.refs - 1                                            -- s.refs.Add(-1)
         if refs ≤ 0 then
           ({ s with refs := refs, handles := hs, uCloses := s.uCloses + 1, queue := 0 },
            .closed (s.uCloses + 1) hd.pending)                            -- underlying.Close()
+        else if hd.wdArmed then                                           -- writeDeadlineArmed.Swap(false)
+          ({ s with refs := refs, handles := hs, wdlPast := if s.fwd then false else s.wdlPast },
+           .closed s.uCloses hd.pending)                                  -- underlying.SetWriteDeadline(time.Time{})
         else ({ s with refs := refs, handles := hs }, .closed s.uCloses hd.pending)
   | .read h =>
     match s.handles[h]? with
@@ -123,6 +161,7 @@ def step (s : State) : Op → State × Out
     | some hd =>
       if hd.closed then (s, .errClosed)
       else if s.uCloses > 0 then (s, .errClosed)
+      else if s.wdlPast then (s, .errTimeout)     -- the underlying write fails under the shared deadline
       else (s, .ok)
   | .setrd h past =>
     match s.handles[h]? with
@@ -130,10 +169,36 @@ def step (s : State) : Op → State × Out
     | some hd =>
       if hd.closed then (s, .errClosed)
       else ({ s with handles := s.handles.set h { hd with rdlPast := past } }, .ok)
-  | .setwd h =>
+  | .setwd h past =>
     match s.handles[h]? with
     | none => (s, .badHandle)
-    | some hd => if hd.closed then (s, .errClosed) else (s, .ok)
+    | some hd =>
+      if hd.closed then (s, .errClosed)
+      else ({ s with handles := s.handles.set h { hd with wdArmed := past },   -- writeDeadlineArmed.Store(!t.IsZero())
+                     wdlPast := if s.fwd then past else s.wdlPast }, .ok)      -- underlying.SetWriteDeadline(t)
+  | .setd h past =>
+    match s.handles[h]? with
+    | none => (s, .badHandle)
+    | some hd =>
+      if hd.closed then (s, .errClosed)
+      else ({ s with handles := s.handles.set h { hd with rdlPast := past, wdArmed := past },
+                     wdlPast := if s.fwd then past else s.wdlPast }, .ok)
+  | .abort h =>
+    match s.handles[h]? with
+    | none => (s, .badHandle)
+    | some hd =>
+      if hd.closed then (s, .abortedClosed s.uCloses)     -- SetDeadline: ErrClosedPipe; Close: closeOnce already fired
+      else
+        -- SetDeadline(time.Now()) (arms: `wdArmed`), then Close (as in `.close`): with siblings left the
+        -- armed wrapper clears the register again
+        let hs := s.handles.set h { hd with rdlPast := true, closed := true, pending := 0, wdArmed := false }
+        let refs := s.refs - 1
+        if refs ≤ 0 then
+          ({ s with refs := refs, handles := hs, uCloses := s.uCloses + 1, queue := 0,
+                    wdlPast := if s.fwd then true else s.wdlPast },
+           .closed (s.uCloses + 1) hd.pending)
+        else ({ s with refs := refs, handles := hs, wdlPast := if s.fwd then false else s.wdlPast },
+              .closed s.uCloses hd.pending)
   | .feed =>
     if s.uCloses > 0 then (s, .skip)
     else if totalPending s.handles = 0 then ({ s with queue := s.queue + 1 }, .fed none)
@@ -157,7 +222,7 @@ def runOps (s : State) : List Op → State
   | op :: rest => runOps (step s op).1 rest
 
 inductive Reachable : State → Prop where
-  | init : Reachable State.init
+  | init (fwd : Bool) : Reachable (State.initK fwd)
   | step {s : State} (op : Op) : Reachable s → op.legal s = true → Reachable (step s op).1
 
 end IceModel.SharedConn
